@@ -23,6 +23,7 @@ Stated, not proved (kept visible): see the end of the file.
 import Kap.Proofs.C13Lit
 import Kap.Proofs.C13Image
 import Kap.Proofs.C13Mono
+import Kap.Proofs.C13LexAtoms
 
 namespace Kap.Props.C13
 open Kap.C13 Kap.C13.Gen
@@ -204,6 +205,39 @@ theorem parse_fmt_parse (f : Nat) (ts : List Tok) (e : Expr) (h : parseTokensF f
 example : (parseTokensF 20 [.id "a", .op .TokenPlus, .id "b", .op .TokenMult, .id "c"]).isOkOf
     (.bin .TokenPlus (.id "a") (.bin .TokenMult (.id "b") (.id "c") false) false) = true := by decide
 
+/-! ## Character level: the lexer reads the printed text back -/
+
+/-- `lexer_reads_formatted`: for every tree whose operand tokens lex as themselves (`LexWF`: a per-token
+condition, nothing about the shape of the tree), the lexer – with its own fixed fuel – turns the printed TEXT
+(`fmtChars`: spaces around binary operators, none after unary ones, `f(a, b)`, parentheses) back into exactly the
+raw token sequence of the tree: every operator (incl. the keyword operators AND / OR, which leave the lexer in
+a different state, and `=~` / `!~`, which peek for a regex), parentheses flagged or derived, calls, commas. -/
+theorem lexer_reads_formatted (e : Expr) (h : LexWF e) : lex (fmtChars e) = .ok (rawToksP e false) :=
+  lex_fmtChars e h
+
+/-- the per-token condition holds for booleans … -/
+theorem lexwf_bool (b : Bool) : LexWF (.lit (.bool b)) := by
+  simp only [LexWF]; exact atomLex_bool b
+
+/-- … for every identifier (letter, then letters / digits / `_`, not a keyword) … -/
+theorem lexwf_ident (s : String) (h : identOK s) : LexWF (.id s) := by
+  simp only [LexWF]; exact identLex_of_ok s h
+
+/-- … and function names directly followed by `(` -/
+theorem lexwf_call (f : String) (h : identOK f) (args : List Expr) (ha : LexWFAll args) : LexWF (.call f args) := by
+  simp only [LexWF]; exact ⟨identLexCall_of_ok f h, ha⟩
+
+theorem identOK_a : identOK "a" := ⟨'a', [], by decide, by decide, by simp, by decide⟩
+theorem identOK_b : identOK "b" := ⟨'b', [], by decide, by decide, by simp, by decide⟩
+theorem identOK_f : identOK "f" := ⟨'f', [], by decide, by decide, by simp, by decide⟩
+
+/-- non-vacuity: `f(a OR TRUE) * -(a + b)` – keyword operator, call, unary over derived parentheses -/
+example : LexWF (.bin .TokenMult (.call "f" [.bin .TokenOr (.id "a") (.lit (.bool true)) false])
+    (.un .neg (.bin .TokenPlus (.id "a") (.id "b") false)) false) := by
+  simp only [LexWF, LexWFAll]
+  exact ⟨⟨identLexCall_of_ok _ identOK_f, ⟨identLex_of_ok _ identOK_a, atomLex_bool true⟩, trivial⟩,
+    identLex_of_ok _ identOK_a, identLex_of_ok _ identOK_b⟩
+
 /-! ## Fuel -/
 
 /-- the fixed fuel of `parseTokens` (2·tokens + 4) always suffices: the model parser is total -/
@@ -223,9 +257,12 @@ theorem parse_format_parse (ts : List Tok) (e : Expr) (h : parseTokens ts = .ok 
 
 /-! ## Stated, not proved -/
 
-/-- character level glue: the lexer + token decoder read the formatted TEXT back as the formatted TOKENS
-(for trees whose literals are expressible). Exercised by the correspondence on every run, not proved. -/
-def lexer_reads_formatted_stmt : Prop :=
+/-- what is still only tied by correspondence at the character level: (a) the per-token hypothesis `AtomLex` for
+numbers, durations, strings, references (discharged for booleans and identifiers; the scanner lemmas
+`string_scan_roundtrip`, `literal_unescape_escape` cover the string/reference bodies), regex and star operands
+(lexed differently depending on the preceding token); (b) decoding the raw tokens gives the decoded tokens of the
+tree with its literals normalised. -/
+def lexer_decodes_formatted_stmt : Prop :=
   ∀ e : Expr, ∀ s, fmtStr e = .ok s → (∀ w, parseLambda s ≠ .na w) →
     (lex s.toList).bind decodeAll = .ok (fmtToks (canonize e))
 
